@@ -395,6 +395,11 @@ func Summarise_(fn string) {}
 func AssertNoRaces(label string) {}
 func GlobalWrites() int          { return 0 }
 func JoinBalance() int           { return 0 }
+// Stash/Fetch/StashCount talk to the engine's environment stubs; natively they do nothing (the
+// harness uses the real environment instead, see IsSymbolic).
+func Stash(key string, ptr interface{})      {}
+func Fetch(key string, ptr interface{}) bool { return false }
+func StashCount(key string) int              { return 0 }
 func LogStart()              {}
 func LogStop()               {}
 func Summarise(fn string)    {}
